@@ -434,6 +434,9 @@ Definition cuser (c : cw) (tag : nat) (a : list nat) : cw :=
         match c_pframes c with _ :: r => {| pf_state := 2; pf_id := nth0 a 0 |} :: r | [] => [] end
   else if (tag =? T_CLOSED)%nat then
     mkc (c_stack c) (c_expect c) (c_popped c) (c_failed c) (c_ready c) None (c_pframes c)
+  else if (tag =? T_SETUP_BEGIN)%nat then
+    mkc (c_stack c) (c_expect c) (c_popped c) (c_failed c) (c_ready c) (c_cpend c)
+        match c_pframes c with _ :: r => {| pf_state := 0; pf_id := S (nth0 a 0) |} :: r | [] => [] end
   else c.
 
 Definition cstep (c : cw) (e : event) : cw :=
@@ -457,7 +460,9 @@ Proof. destruct c; reflexivity. Qed.
 Lemma core_user w tag a text : core (user_step w tag a text) = cuser (core w) tag a.
 Proof.
   destruct w as [w0 w1 w2 w3 w4 w5 w6 w7 w8 w9 w10 w11 w12 w13 w14 w15 w16 w17 w18 w19 w20 w21 w22].
-  unfold user_step, cuser, core, expect_of. cbv zeta. fold (entry_of_args a).
+  destruct (Nat.eqb_spec tag T_SETUP_BEGIN) as [->|Hne]; [destruct w6; reflexivity|].
+  apply Nat.eqb_neq in Hne.
+  unfold user_step, cuser, core, expect_of. cbv zeta. fold (entry_of_args a). rewrite !Hne.
   cbn [sw_stack sw_expect sw_popped_modal sw_failed sw_ready sw_closed_pending sw_pframes sw_modal sw_replaced
        sw_req sw_blocking sw_typed sw_line sw_istack sw_processing sw_handoff sw_received sw_fired sw_must_input
        sw_err sw_follow sw_prev_user set c_stack c_expect c_popped c_failed c_ready c_cpend c_pframes].
@@ -481,6 +486,8 @@ Qed.
 
 (* the acceptors on the core *)
 Definition ctop (c : cw) : option entry := match c_stack c with e :: _ => Some e | [] => None end.
+Definition cin_setup_of (c : cw) (id : nat) : bool :=
+  match c_pframes c with f :: _ => (pf_state f =? 0)%nat && (pf_id f =? S id)%nat | [] => false end.
 
 Definition cchk04 (c : cw) (e : event) : bool :=
   match e with
@@ -512,11 +519,11 @@ Definition cchk04 (c : cw) (e : event) : bool :=
         | None => false
         end
     else if (tag =? T_OP)%nat then match c_expect c with [] => true | _ => false end
-    else if (tag =? T_SETUP)%nat || (tag =? T_REFRESH)%nat || (tag =? T_SHOW)%nat then
+    else if (tag =? T_SETUP)%nat || (tag =? T_REFRESH)%nat || (tag =? T_SHOW)%nat || (tag =? T_SETUP_BEGIN)%nat then
       match ctop c with
       | Some t => (en_id t =? nth0 a 0)%nat && (en_scr t =? nth0 a 1)%nat
       | None => false
-      end
+      end || (negb (tag =? T_SHOW)%nat && negb (tag =? T_SETUP_BEGIN)%nat && cin_setup_of c (nth0 a 0))
     else if (tag =? T_SEPARATOR)%nat then
       match ctop c with Some t => (en_scr t =? nth0 a 0)%nat | None => false end
     else true
@@ -531,10 +538,14 @@ Definition cchk08 (c : cw) (e : event) : bool :=
   | EUser tag a _ =>
     let args_ok := match ctop c with Some t => (en_args t =? nth0 a 2)%nat | None => false end in
     if (tag =? T_SETUP)%nat then
-      negb (mem (nth0 a 1) (c_ready c)) && args_ok &&
+      (negb (mem (nth0 a 1) (c_ready c)) && args_ok || cin_setup_of c (nth0 a 0)) &&
       match c_pframes c with f :: _ => (pf_state f =? 0)%nat | [] => false end
+    else if (tag =? T_SETUP_BEGIN)%nat then
+      negb (mem (nth0 a 1) (c_ready c)) && args_ok &&
+      match c_pframes c with f :: _ => (pf_state f =? 0)%nat && (pf_id f =? 0)%nat | [] => false end &&
+      match c_failed c with Some _ => false | None => true end
     else if (tag =? T_REFRESH)%nat then
-      mem (nth0 a 1) (c_ready c) && args_ok &&
+      mem (nth0 a 1) (c_ready c) && (args_ok || cin_setup_of c (nth0 a 0)) &&
       match c_pframes c with f :: _ => (pf_state f =? 0)%nat | [] => false end
     else if (tag =? T_SHOW)%nat then
       match c_pframes c with f :: _ => (pf_state f =? 1)%nat && (pf_id f =? nth0 a 0)%nat | [] => false end
@@ -574,7 +585,8 @@ Definition spec_wf (n : nat) (sp : screen_spec) : bool :=
   forallb (scmd_wf n) (sc_refresh sp) && forallb (scmd_wf n) (sc_show sp) && forallb (scmd_wf n) (sc_closed sp) &&
   forallb (fun kv => forallb (scmd_wf n) (fst (snd kv))) (sc_input sp) &&
   forallb (scmd_wf n) (fst (sc_input_default sp)) &&
-  forallb (forallb (scmd_wf n)) (sc_custom sp).
+  forallb (forallb (scmd_wf n)) (sc_custom sp) &&
+  forallb (scmd_wf n) (sc_setup_cmds sp).
 Definition saction_wf (n : nat) (a : saction) : bool :=
   match a with SACmds l => forallb (scmd_wf n) l | SARun => true end.
 Definition wf_session (specl : list screen_spec) (quit : option nat) (acts : list saction) : bool :=
@@ -592,6 +604,27 @@ Proof.
   - induction e as [|x e IHe]; constructor; [apply IH | exact IHe].
 Qed.
 
+(* the hypothesis about setup() with commands: a setup() that can report failure does nothing else.  (A setup() that
+   changes the stack and then reports failure makes the scheduler discard the wrong entry: C08_failed_setup_after_push_refuted) *)
+Definition failing_setup_plain (specs : nat -> screen_spec) : Prop :=
+  forall s, In false (sc_setup (specs s)) -> sc_setup_cmds (specs s) = [].
+
+Lemma plain_setup_failing specs : plain_setup specs -> failing_setup_plain specs.
+Proof. intros H s _. apply H. Qed.
+
+Lemma last_In {A} (l : list A) d : l <> [] -> In (last l d) l.
+Proof.
+  intros H. rewrite (app_removelast_last d H) at 2. apply in_or_app. right. left. reflexivity.
+Qed.
+
+Lemma nth_last_false l n : nth_last l n = false -> In false l.
+Proof.
+  unfold nth_last. destruct l as [|a l']; [discriminate|]. intros H. rewrite <- H.
+  destruct (Nat.lt_ge_cases n (length (a :: l'))) as [Hlt|Hge].
+  - apply nth_In. exact Hlt.
+  - rewrite nth_overflow by exact Hge. apply last_In. discriminate.
+Qed.
+
 Definition ent_of (d : sdata) : entry :=
   {| en_id := sd_id d; en_scr := sd_scr d; en_args := sd_args d; en_modal := sd_modal d |}.
 
@@ -602,6 +635,7 @@ Section Screens.
   Variable typed : list (option str).
   Variable b : bool.                       (* true: C04 and C08; false: C04 only *)
   Variable specs : nat -> screen_spec.
+  Hypothesis Hfsp : failing_setup_plain specs.
   Variable nscr : nat.
   Hypothesis Hwf : b = true -> forall x, spec_wf nscr (specs x) = true.
 
@@ -1051,6 +1085,46 @@ Section Screens.
     - exact H.
   Qed.
 
+  (* a setup() with commands: entered at the start of a _process_screen for the top entry ... *)
+  Lemma wpc_ev_setup_begin n d st pm rdy pf u Q :
+    (b = true -> mem (sd_scr d) rdy = false) ->
+    Qat ONormal (mkc (ent_of d :: st) [] pm None rdy None ({| pf_state := 0; pf_id := S (sd_id d) |} :: pf)) u Q ->
+    wpc n (ev T_SETUP_BEGIN [sd_id d; sd_scr d; sd_args d])
+        (mkc (ent_of d :: st) [] pm None rdy None ({| pf_state := 0; pf_id := 0 |} :: pf)) u Q.
+  Proof.
+    intros Hm H. apply wpc_emit.
+    - unfold cchk, cchk04, cchk08. cbn. rewrite !Nat.eqb_refl. destruct b; [|reflexivity].
+      pose proof (Hm eq_refl) as Hm'. unfold mem in Hm'. rewrite Hm'. reflexivity.
+    - exact H.
+  Qed.
+
+  (* ... and when it returns, whatever the stack has become *)
+  Lemma wpc_ev_setup_ret n d (ok : bool) st pm rdy pf u Q :
+    Qat ONormal (if ok then mkc st [] pm None (sd_scr d :: rdy) None ({| pf_state := 0; pf_id := S (sd_id d) |} :: pf)
+                 else mkc st [] pm (Some (sd_id d)) rdy None ({| pf_state := 0; pf_id := S (sd_id d) |} :: pf)) u Q ->
+    wpc n (ev T_SETUP [sd_id d; sd_scr d; sd_args d; b2n ok])
+        (mkc st [] pm None rdy None ({| pf_state := 0; pf_id := S (sd_id d) |} :: pf)) u Q.
+  Proof.
+    intros H. apply wpc_emit.
+    - unfold cchk, cchk04, cchk08, cin_setup_of. cbn. rewrite !Nat.eqb_refl, !orb_true_r. destruct b; reflexivity.
+    - cbn. rewrite b2n_eq1. destruct ok; exact H.
+  Qed.
+
+  (* the refresh: of the top entry, or the one that follows the return of that entry's setup() with commands *)
+  Lemma wpc_ev_refresh_gen n d fr st pm rdy pf u Q :
+    pf_state fr = 0 -> (b = true -> mem (sd_scr d) rdy = true) ->
+    ((exists st', st = ent_of d :: st') \/ pf_id fr = S (sd_id d)) ->
+    Qat ONormal (mkc st [] pm None rdy None ({| pf_state := 1; pf_id := sd_id d |} :: pf)) u Q ->
+    wpc n (ev T_REFRESH [sd_id d; sd_scr d; sd_args d]) (mkc st [] pm None rdy None (fr :: pf)) u Q.
+  Proof.
+    intros Hfr Hm [[st' ->]|Hid] H; [apply wpc_ev_refresh; assumption|].
+    destruct fr as [fs fi]. cbn [pf_state pf_id] in Hfr, Hid. subst fs fi.
+    apply wpc_emit.
+    - unfold cchk, cchk04, cchk08, cin_setup_of. cbn. rewrite !Nat.eqb_refl, !orb_true_r. destruct b; [|reflexivity].
+      pose proof (Hm eq_refl) as Hm'. unfold mem in Hm'. rewrite Hm'. reflexivity.
+    - exact H.
+  Qed.
+
   Lemma wpc_ev_separator n d st pm rdy pfs u Q :
     Qat ONormal (mkc (ent_of d :: st) [] pm None rdy None pfs) u Q ->
     wpc n (ev T_SEPARATOR [sd_scr d]) (mkc (ent_of d :: st) [] pm None rdy None pfs) u Q.
@@ -1085,10 +1159,15 @@ Section Screens.
   Lemma wf_custom x k : b = true -> forallb (scmd_wf nscr) (nth k (sc_custom (specs x)) []) = true.
   Proof.
     intros Hb. pose proof (Hwf Hb x) as H. unfold spec_wf in H. rewrite !andb_true_iff in H.
-    destruct H as [_ H]. rewrite forallb_forall in H.
+    destruct H as [[_ H] _]. rewrite forallb_forall in H.
     destruct (Nat.lt_ge_cases k (length (sc_custom (specs x)))) as [Hlt|Hge].
     - apply H. apply nth_In. exact Hlt.
     - rewrite nth_overflow by exact Hge. reflexivity.
+  Qed.
+
+  Lemma wf_setup_cmds x : b = true -> forallb (scmd_wf nscr) (sc_setup_cmds (specs x)) = true.
+  Proof.
+    intros Hb. pose proof (Hwf Hb x) as H. unfold spec_wf in H. rewrite !andb_true_iff in H. tauto.
   Qed.
 
   Lemma assoc_str_wf key l cmds rv :
@@ -1576,20 +1655,30 @@ Section Screens.
         wcall IH Ps pf HI2 x; [exact HI1 | exact HI2 | exact HI2].
     Qed.
 
-    Lemma process_screen_wpc Ps pf fr0 c u :
-      pf_state fr0 = 0 -> IC Ps (fr0 :: pf) c u -> wpc n (process_screen specs) c u (QF Ps pf).
+    Lemma process_screen_wpc Ps pf c u :
+      IC Ps ({| pf_state := 0; pf_id := 0 |} :: pf) c u -> wpc n (process_screen specs) c u (QF Ps pf).
     Proof.
-      intros Hfr HI. ic_open HI pm rdy HG. unfold process_screen, with_top. wstep.
+      set (fr0 := {| pf_state := 0; pf_id := 0 |}). assert (Hfr : pf_state fr0 = 0) by reflexivity.
+      intros HI. ic_open HI pm rdy HG. unfold process_screen, with_top. wstep.
       destruct (st_stack u) as [|top r] eqn:Estk.
       { wstep. apply IC_intro; [rewrite Estk; reflexivity | exact HG]. }
       cbv zeta. wstep.
       match goal with |- wpc _ _ _ _ (K _ ?q _) => set (TAIL := q) end.
+      (* the stack as it is when this _process_screen starts is remembered: ids below the counter are those entries *)
+      set (Ps1 := (st_next_sd u, top :: r) :: Ps).
+      assert (HG0 : G Ps1 rdy u).
+      { pose proof (G_mark _ _ _ HG) as HG0. rewrite Estk in HG0. exact HG0. }
+      assert (Hlt : sd_id top < st_next_sd u).
+      { destruct HG as ([_ L2] & _). rewrite Estk in L2. inversion L2; assumption. }
+      assert (Hscr : b = true -> sd_scr top < nscr).
+      { intros Hb. destruct HG as (_ & _ & HR). destruct (HR Hb) as (_ & _ & R3 & _).
+        rewrite Estk in R3. inversion R3; assumption. }
 
-      assert (Htail : forall pm1 rdy1 u1, st_stack u1 = top :: r -> G Ps rdy1 u1 ->
-                (b = true -> mem (sd_scr top) rdy1 = true) -> st_rb u1 = true ->
-                wpc n TAIL (mkc (ent_of top :: map ent_of r) [] pm1 None rdy1 None (fr0 :: pf)) u1 (QF Ps pf)).
-      { intros pm1 rdy1 u1 Hstk HG1 Hm Hrb. unfold TAIL. wstep. rewrite Hrb. cbn [negb].
-        set (Ps1 := (st_next_sd u1, st_stack u1) :: Ps).
+      assert (Htail : forall pm1 rdy1 u1 fr1 stk, st_stack u1 = stk -> G Ps1 rdy1 u1 ->
+                (b = true -> mem (sd_scr top) rdy1 = true) -> st_rb u1 = true -> pf_state fr1 = 0 ->
+                ((exists r1, stk = top :: r1) \/ pf_id fr1 = S (sd_id top)) ->
+                wpc n TAIL (mkc (map ent_of stk) [] pm1 None rdy1 None (fr1 :: pf)) u1 (QF Ps pf)).
+      { intros pm1 rdy1 u1 fr1 stk Hstk HG1 Hm Hrb Hfr1 Hcase. subst stk. unfold TAIL. wstep. rewrite Hrb. cbn [negb].
         assert (HQF : forall fr c' u' o, IC Ps1 (fr :: pf) c' u' -> Qat o c' u' (QF Ps pf)).
         { intros fr c' u' o HI'. eapply Qat_QF. eapply IC_drop. exact HI'. }
         assert (Hraise : forall fr c' u', IC Ps1 (fr :: pf) c' u' -> wpc n raise_exception_signal c' u' (QF Ps pf)).
@@ -1605,11 +1694,13 @@ Section Screens.
             + destruct x; qstep; [eapply IC_drop; exact HI4 | apply (Hraise fr); exact HI4 | eapply IC_drop; exact HI4].
           - wstep. eapply IC_drop; exact HI3. }
         do 3 wstep. wstep. unfold call_refresh. wstep. cbv zeta. do 3 wstep.
-        apply wpc_ev_refresh; [exact Hfr | exact Hm | qstep].
+        apply wpc_ev_refresh_gen; [exact Hfr1 | exact Hm | | qstep].
+        { destruct Hcase as [[r1 Hr1]|Hid]; [left | right; exact Hid].
+          cbn [st_stack set upd_scr]. rewrite Hr1. cbn [map]. eauto. }
         match goal with |- wpc _ (run_cmds _ ?a ?k ?l) _ _ _ =>
           wcall (run_cmds_spec a k l (fun Hb => proj1 (wf_parts a Hb))) Ps1 ({| pf_state := 1; pf_id := sd_id top |} :: pf) HI2 x end.
-        - apply IC_intro; [cbn [st_stack set upd_scr]; rewrite Hstk; reflexivity|].
-          eapply G_view; [|apply G_mark; exact HG1]. view_solve.
+        - apply IC_intro; [reflexivity|].
+          eapply G_view; [|exact HG1]. view_solve.
         - (* refresh() returned: is the screen still on top? *)
           ic_open HI2 pm2 rdy2 HG2. wstep.
           destruct (st_stack u0) as [|top' r'] eqn:E2.
@@ -1619,10 +1710,8 @@ Section Screens.
           assert (top' = top) as ->.
           { apply Nat.eqb_eq in Eid.
             destruct (G_head _ _ _ _ _ HG2) as [_ Hold].
-            assert (Hlt : sd_id top < st_next_sd u1).
-            { destruct HG1 as ([_ L2] & _). rewrite Hstk in L2. inversion L2; assumption. }
-            apply (same_entry u1 top r); [apply HG1 | exact Hstk | | exact Eid].
-            rewrite <- Hstk. apply Hold; [rewrite E2; left; reflexivity | lia]. }
+            apply (same_entry u top r); [apply HG | exact Estk | | exact Eid].
+            apply Hold; [rewrite E2; left; reflexivity | lia]. }
           cbn [map]. wstep. unfold draw_screen. wstep. wstep.
           assert (Hshow : wpc n (call_show_all specs top)
                     (mkc (ent_of top :: map ent_of r') [] pm2 None rdy2 None ({| pf_state := 1; pf_id := sd_id top |} :: pf)) u0
@@ -1661,38 +1750,66 @@ Section Screens.
           + eapply Hraise. exact HI2.
           + eapply IC_drop. exact HI2. }
 
+      (* a successful setup makes the screen ready *)
+      assert (Hready : forall rdy1 u1, G Ps1 rdy1 u1 ->
+                G Ps1 (sd_scr top :: rdy1)
+                  (upd_scr (sd_scr top) (fun t0 : scrst => t0 <| ss_ready := true |>) u1 <| st_rb := true |>)).
+      { intros rdy1 u1 HG1. eapply G_ready; [exact HG1 | reflexivity | reflexivity | reflexivity | | ].
+        { cbn [st_scr set upd_scr]. rewrite !length_upd_nth. reflexivity. }
+        intros Hb x. destruct HG1 as (_ & _ & HR). destruct (HR Hb) as (_ & R2 & _).
+        pose proof (Hscr Hb) as Hl.
+        unfold scr_of. cbn [st_scr set upd_scr]. rewrite nth_upd_nth, R2.
+        apply Nat.ltb_lt in Hl. rewrite Hl, andb_true_r.
+        destruct (x =? sd_scr top)%nat eqn:Ex; reflexivity. }
+
       wstep. destruct (ss_ready (scr_of u (sd_scr top))) eqn:Erdy.
       - (* already set up *)
-        wstep. cbn [map]. apply Htail; [cbn [st_stack set]; exact Estk | eapply G_view; [view_solve | exact HG] | | reflexivity].
+        wstep. cbn [map]. apply (Htail _ _ _ _ (top :: r));
+          [cbn [st_stack set]; exact Estk | eapply G_view; [view_solve | exact HG0] | | reflexivity | exact Hfr | left; eauto].
         intros Hb. destruct HG as (_ & _ & HR). destruct (HR Hb) as (R1 & _). rewrite R1. exact Erdy.
       - (* setup() *)
-        unfold call_setup. wstep. cbv zeta. do 3 wstep. cbn [map].
-        apply wpc_ev_setup; [exact Hfr | | qstep].
+        assert (Hnr : b = true -> mem (sd_scr top) rdy = false).
         { intros Hb. destruct HG as (_ & _ & HR). destruct (HR Hb) as (R1 & _). rewrite R1. exact Erdy. }
-        destruct (nth_last (sc_setup (specs (sd_scr top))) (ss_n_setup (scr_of u (sd_scr top)))) eqn:Eok.
-        + (* succeeded: the screen is ready *)
-          repeat wstep. apply Htail; [cbn [st_stack set upd_scr]; exact Estk | | | reflexivity].
-          * eapply G_ready; [exact HG | reflexivity | reflexivity | reflexivity | | ].
-            { cbn [st_scr set upd_scr]. rewrite !length_upd_nth. reflexivity. }
-            intros Hb x. destruct HG as (_ & _ & HR). destruct (HR Hb) as (_ & R2 & R3 & _).
-            rewrite Estk in R3. inversion R3 as [|? ? Hlt _]; subst.
-            unfold scr_of. cbn [st_scr set upd_scr]. rewrite nth_upd_nth, length_upd_nth, R2.
-            apply Nat.ltb_lt in Hlt. rewrite Hlt, andb_true_r.
-            destruct (x =? sd_scr top)%nat eqn:Ex; [reflexivity|].
-            rewrite nth_upd_nth, Ex. reflexivity.
-          * intros _. unfold mem. cbn [existsb]. rewrite Nat.eqb_refl. reflexivity.
-        + (* failed: the entry is discarded, the next screen is processed *)
-          repeat wstep. unfold TAIL. wstep. cbn [st_rb set upd_scr negb]. do 2 wstep.
-          cbn [st_stack set upd_scr]. rewrite Estk. do 2 wstep.
-          apply wpc_ev_pop_failed; qstep.
-          assert (HI1 : forall pmx, IC Ps (fr0 :: pf) (mkc (map ent_of r) [] pmx None rdy None (fr0 :: pf))
-                          (upd_scr (sd_scr top) (fun t0 : scrst => t0 <| ss_n_setup := S (ss_n_setup (scr_of u (sd_scr top))) |>) u
-                             <| st_rb := false |> <| st_stack := r |>)).
-          { intros pmx. apply IC_intro; [reflexivity|].
-            eapply G_pop; [exact HG | same_rest_solve | exact Estk | reflexivity | reflexivity]. }
-          destruct (sd_modal top).
-          * wcall HAPI Ps (fr0 :: pf) HI2 x; [apply HI1 | exact HI2 | exact HI2].
-          * repeat wstep. apply HI1.
+        unfold call_setup. destruct (sc_setup_cmds (specs (sd_scr top))) as [|c0 cmds] eqn:Ecmds.
+        + (* a setup() that only reports its result *)
+          unfold call_setup_plain. wstep. cbv zeta. do 3 wstep. cbn [map].
+          apply wpc_ev_setup; [exact Hfr | exact Hnr | qstep].
+          destruct (nth_last (sc_setup (specs (sd_scr top))) (ss_n_setup (scr_of u (sd_scr top)))) eqn:Eok.
+          * (* succeeded: the screen is ready *)
+            repeat wstep. apply (Htail _ _ _ _ (top :: r));
+              [cbn [st_stack set upd_scr]; exact Estk | | | reflexivity | exact Hfr | left; eauto].
+            -- apply Hready. eapply G_view; [|exact HG0]. view_solve.
+            -- intros _. unfold mem. cbn [existsb]. rewrite Nat.eqb_refl. reflexivity.
+          * (* failed: the entry is discarded, the next screen is processed *)
+            repeat wstep. unfold TAIL. wstep. cbn [st_rb set upd_scr negb]. do 2 wstep.
+            cbn [st_stack set upd_scr]. rewrite Estk. do 2 wstep.
+            apply wpc_ev_pop_failed; qstep.
+            assert (HI1 : forall pmx, IC Ps (fr0 :: pf) (mkc (map ent_of r) [] pmx None rdy None (fr0 :: pf))
+                            (upd_scr (sd_scr top) (fun t0 : scrst => t0 <| ss_n_setup := S (ss_n_setup (scr_of u (sd_scr top))) |>) u
+                               <| st_rb := false |> <| st_stack := r |>)).
+            { intros pmx. apply IC_intro; [reflexivity|].
+              eapply G_pop; [exact HG | same_rest_solve | exact Estk | reflexivity | reflexivity]. }
+            destruct (sd_modal top).
+            -- wcall HAPI Ps (fr0 :: pf) HI2 x; [apply HI1 | exact HI2 | exact HI2].
+            -- repeat wstep. apply HI1.
+        + (* a setup() that runs commands first: it cannot report failure *)
+          assert (Eok : nth_last (sc_setup (specs (sd_scr top))) (ss_n_setup (scr_of u (sd_scr top))) = true).
+          { destruct (nth_last (sc_setup (specs (sd_scr top))) (ss_n_setup (scr_of u (sd_scr top)))) eqn:Eok; [reflexivity|].
+            apply nth_last_false in Eok. apply Hfsp in Eok. congruence. }
+          unfold call_setup_cmds. wstep. cbv zeta. rewrite Eok. do 3 wstep. cbn [map].
+          apply wpc_ev_setup_begin; [exact Hnr | qstep]. wstep.
+          set (fr1 := {| pf_state := 0; pf_id := S (sd_id top) |}).
+          wcall (run_cmds_spec (sd_scr top) (ss_n_setup (scr_of u (sd_scr top))) (c0 :: cmds)
+                   (fun Hb => eq_ind _ (fun l => forallb (scmd_wf nscr) l = true) (wf_setup_cmds (sd_scr top) Hb) _ Ecmds))
+                Ps1 (fr1 :: pf) HI2 x.
+          * apply IC_intro; [cbn [st_stack set upd_scr]; rewrite Estk; reflexivity|].
+            eapply G_view; [|exact HG0]. view_solve.
+          * (* setup() returns: the stack may have changed *)
+            ic_open HI2 pm2 rdy2 HG2. wstep.
+            apply (wpc_ev_setup_ret n top true); qstep. repeat wstep.
+            apply (Htail _ _ _ fr1 (st_stack u0)); [reflexivity | apply Hready; exact HG2 | | reflexivity | reflexivity | right; reflexivity].
+            intros _. unfold mem. cbn [existsb]. rewrite Nat.eqb_refl. reflexivity.
+          * destruct x; qstep; eapply IC_drop; exact HI2.
     Qed.
 
 
@@ -1737,7 +1854,7 @@ Section Screens.
       destruct (hid =? H_RENDER)%nat eqn:Eh.
       - (* _process_screen_callback *)
         assert (W : wp n (process_screen specs) s1 (QF Ps pf)).
-        { refine (process_screen_wpc Ps pf {| pf_state := 0; pf_id := 0 |} _ _ eq_refl _ s1 Hat).
+        { refine (process_screen_wpc Ps pf _ _ _ s1 Hat).
           destruct HI as (pm & rdy & -> & HG). exists pm, rdy. split; [|exact HG].
           cbn [cstep]. rewrite Eh. reflexivity. }
         unfold screen_code in E. rewrite Eh in E.
@@ -1898,10 +2015,11 @@ Qed.
 
 (* every session is accepted by C04 (b = false), and by C04 and C08 when it is well formed (b = true) *)
 Theorem app_accepted b specs specl typed quit run_empty fuel acts :
+  failing_setup_plain specs ->
   (b = true -> (forall n, specs n = nth n specl default_spec) /\ wf_session specl quit acts = true) ->
   acc_tr (chkb b) typed (trace (snd (app_run_all specs specl typed quit run_empty fuel acts))).
 Proof.
-  intros Hb.
+  intros Hpl Hb.
   assert (Hwf : b = true -> forall x, spec_wf (length specl) (specs x) = true).
   { intros E. destruct (Hb E) as [Hs Hw]. apply specs_wf; [exact Hs|]. apply (wf_session_parts _ _ _ Hw). }
   unfold app_run_all.
@@ -1910,7 +2028,7 @@ Proof.
   destruct (app_initialize_inv typed b specs (length specl) _ H0) as (s1 & E1 & H1).
   rewrite E1.
   destruct (app_session specs fuel acts s1) as [os s'] eqn:E. cbn [snd].
-  refine (proj1 (session_inv typed b specs (length specl) Hwf fuel acts s1 os s' H1 _ E)).
+  refine (proj1 (session_inv typed b specs Hpl (length specl) Hwf fuel acts s1 os s' H1 _ E)).
   intros E0. destruct (Hb E0) as [_ Hw]. apply (wf_session_parts _ _ _ Hw).
 Qed.
 
@@ -1956,11 +2074,12 @@ Qed.
 
 (* the link holds after every finished session *)
 Theorem app_slink b specs specl typed quit run_empty fuel acts :
+  failing_setup_plain specs ->
   (b = true -> (forall n, specs n = nth n specl default_spec) /\ wf_session specl quit acts = true) ->
   Forall finished (fst (app_run_all specs specl typed quit run_empty fuel acts)) ->
   slink typed (snd (app_run_all specs specl typed quit run_empty fuel acts)).
 Proof.
-  intros Hb.
+  intros Hpl Hb.
   assert (Hwf : b = true -> forall x, spec_wf (length specl) (specs x) = true).
   { intros E. destruct (Hb E) as [Hs Hw]. apply specs_wf; [exact Hs|]. apply (wf_session_parts _ _ _ Hw). }
   unfold app_run_all.
@@ -1970,7 +2089,7 @@ Proof.
   rewrite E1.
   destruct (app_session specs fuel acts s1) as [os s'] eqn:E. cbn [fst snd]. intros F.
   eapply Inv_slink.
-  refine (proj2 (session_inv typed b specs (length specl) Hwf fuel acts s1 os s' H1 _ E) F).
+  refine (proj2 (session_inv typed b specs Hpl (length specl) Hwf fuel acts s1 os s' H1 _ E) F).
   intros E0. destruct (Hb E0) as [_ Hw]. apply (wf_session_parts _ _ _ Hw).
 Qed.
 
